@@ -425,9 +425,14 @@ def judge_graph(ctx, label, g, hin, hl, dl, stats):
             stats["eq"] += 1
             if real != rust:
                 probs.append(("violation", "`%s`: equal? through the engine = %s but Rust == = %s" % (q, real, rust)))
-            guards = d.get("wf") == "true" and d.get("keys") == "true"
-            if not guards:
-                probs.append(("model", "`%s`: generated graph violates wf/keys guards: %s" % (q, m)))
+            if d.get("wf") != "true":
+                probs.append(("model", "`%s`: generated graph is not well formed: %s" % (q, m)))
+                continue
+            if d.get("keys") != "true":
+                # the definitions are the resolved ones: the REAL hash map holds two keys with equal unfoldings
+                if d.get("nonan") == "true":
+                    probs.append(("violation", "`%s`: a real hash map reachable here holds two keys whose unfoldings are equal "
+                                               "(it is not a finite map): %s" % (q, m)))
                 continue
             if d.get("shared") == "true":
                 stats["eq_shared"] += 1
